@@ -855,10 +855,18 @@ func c26SafeExec(c c26Case) (o verifkit.Outcome, err error) {
 // engine: requests (rapid)
 
 func c26GenAddr(t *rapid.T) string {
-	pid := rapid.SampledFrom([]string{"1", "42", "100", "100", "1234", "2147483647", "007", "0", "2147483648", "99999999999999999999"}).Draw(t, "pid")
-	uid := rapid.SampledFrom([]string{"0", "0", "0", "1000", "1000", "1000", "1", "65534", "4294967294", "00", "4294967295", "4294967296", "18446744073709551616"}).Draw(t, "uid")
-	sock := rapid.SampledFrom([]string{"{SNAPD}", "{SNAPD}", "{SNAPD}", "{SNAPD}", "{SNAPD}", "{SNAP}", "{SNAP}", "{SNAP}", "{SNAP}",
-		"/run/other.socket", "", "{SNAPD}x", "{SNAP}/", "/run/snapd.socke", "@", "{SNAPD} ", "/tmp{SNAPD}"}).Draw(t, "sock")
+	pid := rapid.SampledFrom([]string{"1", "42", "100", "100", "1234", "2147483647", "007"}).Draw(t, "pid")
+	if rapid.IntRange(0, 19).Draw(t, "badpid") == 0 {
+		pid = rapid.SampledFrom([]string{"0", "00", "2147483648", "4294967396", "99999999999999999999"}).Draw(t, "pidx")
+	}
+	uid := rapid.SampledFrom([]string{"0", "0", "0", "1000", "1000", "1000", "1", "65534", "4294967294", "00"}).Draw(t, "uid")
+	if rapid.IntRange(0, 19).Draw(t, "baduid") == 0 {
+		uid = rapid.SampledFrom([]string{"4294967295", "4294967296", "8589934592", "18446744073709551616"}).Draw(t, "uidx")
+	}
+	sock := rapid.SampledFrom([]string{"{SNAPD}", "{SNAP}"}).Draw(t, "sock")
+	if rapid.IntRange(0, 5).Draw(t, "oddsock") == 0 {
+		sock = rapid.SampledFrom([]string{"/run/other.socket", "", "{SNAPD}x", "{SNAP}/", "/run/snapd.socke", "@", "{SNAPD} ", "/tmp{SNAPD}", "{SNAPD}{SNAP}"}).Draw(t, "sockx")
+	}
 	s := fmt.Sprintf("pid=%s;uid=%s;socket=%s;", pid, uid, sock)
 	if rapid.IntRange(0, 99).Draw(t, "mutate") >= 14 {
 		return s
